@@ -327,8 +327,8 @@ common::register! {
     q_sdes_item = sdes_item => 2,
     q_sdes_1x2 = sdes::<_, 1, 2> => 3,
     q_sdes_2x1 = sdes::<_, 2, 1> => 3,
-    q_sdes_31x0 = sdes::<_, 31, 0> => 32,
-    q_sdes_32x0 = sdes::<_, 32, 0> => 33,
+    t_sdes_31x0 = sdes::<_, 31, 0> => 32,
+    t_sdes_32x0 = sdes::<_, 32, 0> => 33,
     q_fb_pli = fb::<_, 0> => 2,
     q_fb_sli = fb::<_, 1> => 3,
     q_fb_rpsi = fb::<_, 2> => 2,
